@@ -107,13 +107,19 @@ func (p *Parser) AppendLastReturnT() {
 		return
 	}
 
+	// the last value can be a list of targets (x, = ...): nothing to return then
+	lastT, ok := p.lastEvaluatedT.(*base.T)
+	if !ok {
+		return
+	}
+
 	for _, candidateT := range p.lastReturnT {
-		if candidateT.IsMatchType(p.lastEvaluatedT.(*base.T)) {
+		if candidateT.IsMatchType(lastT) {
 			return
 		}
 	}
 
-	if p.lastEvaluatedT.(*base.T) == nil {
+	if lastT == nil {
 		p.lastReturnT = append(p.lastReturnT, *base.MakeNil())
 
 		return
